@@ -104,6 +104,25 @@ CLAIMED["C18"] = dict(
     text="Job lists of 2..6 real `treetools` command lines (conversions with sentence-local transformations and per-job terminal files under different names, grammar extraction in all types and formats, analysis tasks, transition extraction; different source formats and reader options) are executed by a minimal runner that imports nothing but the code under test: once per job in a fresh process, and as a whole history in one process in two orders. Every job's files and stdout must be the same in all runs. For corpora A and B the output for A+B must be the concatenation (conversions, transitions) or the sum (treebank and Markov grammars, lexicons, statistics) of the separate outputs. The same command under PYTHONHASHSEED 0, 1 and 123 must produce the same files (set-like files as line multisets). In-process units add many cheap cases: two or three reader->transformation->writer/extraction pipelines executed sequentially and interleaved tree by tree along a drawn schedule must give the same per-pipeline outputs, and extraction, Markovized binarization, writers and statistics over A+B must be the sum / concatenation of the parts.",
     note="Trusted: vlib/jobrunner.py (runpy on the unmodified script), decoders for the additive comparisons. Interleavings are sampled (histories of <= 6+2 jobs, one extra permutation), not enumerated; deterministic binarization is excluded from the additivity clause (symbols are numbered).",
     ref="DESIGN.md section 2, C18")
+# second route added in the later rounds: the same oracles behind the real command line
+CLI_ROUTE = {
+ "C01": ("; the readers driven through `treetools transform --src-opts ...` in-process (files incl. multi-member gzip, option values such as 0)",
+         " A further unit reaches every reader through the real command line (runpy on the unmodified script): source files in all formats, plain or gzip with one or two members, reader options as --src-opts; the decoded destination must be the projection of the source model."),
+ "C02": ("; the writers driven through `treetools transform --dest-opts ...` in-process, decoded independently",
+         " A further unit reaches every writer through the real command line from an export source, with output options (also options of other writers, which must be inert) and destination encodings."),
+}
+for _pid in ("C04", "C05", "C11", "C12", "C13", "C14", "C15"):
+    CLI_ROUTE[_pid] = ("; differential: `treetools transform --trans ... --params ...` in-process (one file, directory mode, --split) vs. the same functions called directly",
+                       " A further unit (cli_vs_functions) writes generated corpora with an independent export encoder, runs the real command line on them with prerequisite-respecting pipelines (repeated transformations, length filters, parameters, output options; one file, directory mode or --split), decodes the result independently and compares it sentence by sentence with the transformation functions applied directly; what the functions reject the command line must reject.")
+for _pid in ("C06", "C07", "C08"):
+    CLI_ROUTE[_pid] = ("; the same oracle on grammar files written by `treetools grammar` in-process (three source formats, encodings, gzip, earlier commands in the same process) and decoded independently",
+                       " A further unit runs `treetools grammar` itself on generated treebanks (export, TIGER-XML, discobrackets; utf-8/latin-1/utf-16; plain or gzip with one or two members; optionally after another command with other options in the same process), decodes the written PMCFG/RCG and lexicon files with independent decoders and applies the same oracle to the decoded grammar.")
+for _pid in ("C09", "C10", "C16"):
+    CLI_ROUTE[_pid] = ("; command-line cases also in-process (runpy), every case after earlier ones with other options", " The command-line unit exists in two forms: a fresh interpreter per case, and many more cases through runpy in one process, so that options of earlier commands would show if they leaked.")
+for _pid, (tech, text) in CLI_ROUTE.items():
+    CLAIMED[_pid]["tech"] += tech
+    CLAIMED[_pid]["text"] += text
+
 PENDING_REASON = "check not built yet in this round (planned, see DESIGN.md section 6); not claimed until it is quiet on the unchanged tree"
 
 
